@@ -257,9 +257,23 @@ impl InputList {
                         "XML error near line {src_line}: invalid name '{name}'"
                     )));
                 }
-                if let (Event::Decl(_), true) = (&ok_ev, index > 0) {
+                // processing instructions and the XML declaration are copied to the output
+                let bad_pi = match &ok_ev {
+                    Event::Decl(_) if index > 0 => Some("XML declaration not at start of document"),
+                    Event::Decl(d) if d.version().is_err() => Some("XML declaration without version"),
+                    Event::PI(_) => {
+                        let target = ev_str.split([' ', '\t', '\n', '\r']).next().unwrap_or("");
+                        if !is_xml_name(target.as_bytes()) || target.eq_ignore_ascii_case("xml") {
+                            Some("invalid processing instruction target")
+                        } else {
+                            None
+                        }
+                    }
+                    _ => None,
+                };
+                if let Some(msg) = bad_pi {
                     return Err(SvgdxError::ParseError(format!(
-                        "XML error near line {src_line}: XML declaration not at start of document"
+                        "XML error near line {src_line}: {msg}"
                     )));
                 }
                 let bad_ref = match &ok_ev {
